@@ -39,14 +39,15 @@ type rtOp struct {
 }
 
 type rtScenario struct {
-	Variant string   `json:"variant"` // plain | state
-	Retry   bool     `json:"retry"`
-	Seq     bool     `json:"seq"`   // sequential histories: settle the library after every move (C14)
-	Burst   bool     `json:"burst"` // M2: clients run their whole programs freely in parallel, then exact quiescence
-	NCtx    int      `json:"nctx"`  // number of distinct root contexts
-	Ticks   int      `json:"ticks"`
-	BoStop  int      `json:"bostop"` // >0: the backoff gives up (returns Stop) from its n-th NextBackOff call on
-	Clients [][]rtOp `json:"clients"`
+	Variant    string   `json:"variant"` // plain | state
+	Retry      bool     `json:"retry"`
+	Seq        bool     `json:"seq"`   // sequential histories: settle the library after every move (C14)
+	Burst      bool     `json:"burst"` // M2: clients run their whole programs freely in parallel, then exact quiescence
+	NCtx       int      `json:"nctx"`  // number of distinct root contexts
+	Ticks      int      `json:"ticks"`
+	RootCancel bool     `json:"rootcancel"` // the client may cancel root contexts it handed to SetContext
+	BoStop     int      `json:"bostop"`     // >0: the backoff gives up (returns Stop) from its n-th NextBackOff call on
+	Clients    [][]rtOp `json:"clients"`
 }
 
 const rtUnit = 10 * time.Millisecond
@@ -111,6 +112,7 @@ type rtDriver struct {
 	lastQ    string
 	lastC    string
 	ticks    int
+	rootLeft int
 }
 
 func init() { Register("routine", func() Driver { return &rtDriver{} }) }
@@ -141,6 +143,7 @@ func genRoutine(x *sched.Exec) rtScenario {
 			sc.BoStop = 1 + r.Intn(2)
 		}
 	}
+	sc.RootCancel = r.Intn(4) == 0
 	ncl := 1 + r.Intn(2)
 	if sc.Seq {
 		ncl = 1
@@ -442,6 +445,7 @@ func (d *rtDriver) Run(x *sched.Exec, raw json.RawMessage) json.RawMessage {
 		d.cl = append(d.cl, c)
 	}
 	d.ticks = sc.Ticks
+	d.rootLeft = 1
 
 	libBusy := func() bool { return len(x.ParkedActors()) != 0 }
 	moves := func() []sched.Move {
@@ -475,6 +479,20 @@ func (d *rtDriver) Run(x *sched.Exec, raw json.RawMessage) json.RawMessage {
 					c.canc = true
 					x.Log(trace.E{"ev": "cancel", "id": c.inflight})
 					c.cancel()
+				}})
+			}
+		}
+		if sc.RootCancel && d.rootLeft > 0 {
+			for tag := 1; tag <= sc.NCtx; tag++ {
+				tag := tag
+				if d.ctxCanc[tag] {
+					continue
+				}
+				ms = append(ms, sched.Move{Label: fmt.Sprintf("cancelroot:%d", tag), Do: func() {
+					d.rootLeft--
+					d.ctxCanc[tag] = true
+					x.Log(trace.E{"ev": "rootcancel", "tag": tag})
+					d.cancels[tag]()
 				}})
 			}
 		}
